@@ -77,6 +77,35 @@ def directed_module():
             "datacount": True}
 
 
+def tails_module():
+    """Every kind of instruction with immediates as the LAST instruction of a function body (directly before the body's final end, not
+    inside a block): the reader's bounds are exact there.  Returns (module, script)."""
+    c = lambda x: ["i32.const", b32(x)]
+    g0 = ["local.get", 0]
+    bodies = [("brt1", 0, [c(7), g0, ["br_table", [0], 0]]), ("brt0", 0, [c(8), g0, ["br_table", [], 0]]), ("brt5", 0, [c(9), g0, ["br_table", [0, 0, 0, 0, 0], 0]]),
+              ("brtv", 1, [g0, ["br_table", [0, 0], 0]]), ("brtv0", 1, [g0, ["br_table", [], 0]]),
+              ("br", 0, [c(5), ["br", 0]]), ("ret", 0, [c(6), ["return"]]), ("un", 0, [["unreachable"]]),
+              ("call", 0, [g0, ["call", 0]]), ("calli", 0, [g0, c(0), ["call_indirect", 0, 0]]), ("load", 0, [g0, ["i32.load", 2, 4]]),
+              ("load8", 0, [g0, ["i32.load8_u", 0, 0]]), ("const", 0, [c(-1)]), ("c64", 0, [["i64.const", b64(-(1 << 63))], ["i32.wrap_i64"], ["drop"], g0]),
+              ("size", 0, [["memory.size"]]), ("gget", 0, [["global.get", 0]]), ("lget", 0, [g0]), ("tee", 0, [g0, ["local.tee", 0]]),
+              ("store", 1, [g0, c(77), ["i32.store", 2, 0]]), ("gset", 1, [g0, ["global.set", 0]]), ("lset", 1, [g0, ["local.set", 0]]),
+              ("fill", 1, [c(64), g0, c(4), ["memory.fill"]]), ("copy", 1, [c(80), c(64), c(4), ["memory.copy"]]), ("drop", 1, [["data.drop", 0]]),
+              ("init", 1, [c(96), c(0), c(0), ["memory.init", 0]]), ("grow", 0, [c(0), ["memory.grow"]]), ("fence", 1, [["atomic.fence"]]),
+              ("f32c", 0, [g0, ["f32.const", b32(0x3F800000)], ["drop"]]), ("f64c", 0, [g0, ["f64.const", b64(0x3FF0000000000000)], ["drop"]])]
+    funcs = [{"type": 0, "locals": [], "body": [g0, c(1), ["i32.add"], ["end"]]}]
+    exps, script = [], [dict(INST)]
+    for nm, ty, body in bodies:
+        funcs.append({"type": ty, "locals": [], "body": body + [["end"]]})
+        exps.append({"name": nm, "kind": "func", "idx": len(funcs) - 1})
+        for x in (0, 1, 9):
+            script.append({"op": "call", "inst": 1, "export": nm, "args": [{"t": "i32", "b": b32(x)}]})
+    m = {"types": [{"p": ["i32"], "r": ["i32"]}, {"p": ["i32"], "r": []}], "funcs": funcs, "exports": exps,
+         "memory": {"min": 1, "max": 2}, "table": {"min": 1, "max": 1}, "elems": [{"offset": ["i32.const", b32(0)], "funcs": [0]}],
+         "globals": [{"t": "i32", "mut": True, "init": ["i32.const", b32(3)]}],
+         "data": [{"mode": "passive", "bytes": [1, 2, 3]}], "datacount": True}
+    return m, script
+
+
 def directed_imports():
     """Memory, table and a global all imported (no defined memory or table): segments go to the embedder's objects."""
     return {"types": [{"p": ["i32"], "r": ["i32"]}, {"p": [], "r": ["i32"]}],
@@ -107,6 +136,9 @@ def choice_vectors(rng, m, n):
                                                                ("linking", []), ("a", [0]), ("b", [1]), ("c", [2]), ("d", [3]), ("e", [4]), ("f", [5]), ("g", [6])])],
                             "dataForm": {"0": "flag2", "2": "flag2"}},
             {"custom": [{"at": k, "name": "c%d" % k, "payload": [k] * k} for k in range(14)]},
+            # sections of a DWARF producer: in front, in the middle, at the end, empty and not
+            {"custom": [{"at": 99, "name": ".debug_info", "payload": [1, 2, 3, 4, 5]}, {"at": 99, "name": ".debug_abbrev", "payload": []}, {"at": 99, "name": ".debug_line", "payload": [0] * 40}]},
+            {"custom": [{"at": 4, "name": ".debug_str", "payload": list(b"clang version 14\0")}, {"at": 0, "name": ".debug_loc", "payload": [9]}]},
             {"dataForm": {"0": "flag2"}, "emitEmpty": ["type", "import", "function", "table", "memory", "global", "export", "element", "code", "data"]},
             # a custom section that happens to be called "name" is still only a custom section: anywhere, with any content
             # (a well-formed function-name subsection before the function section, stale indices, garbage)
@@ -130,7 +162,7 @@ def choice_vectors(rng, m, n):
         pad = {f: rng.choice([0, 0, 1, 2, 4, 9]) for f in rng.sample(fields, max(1, len(fields) // rng.choice([2, 3, 6])))}
         c = {"pad": pad}
         if rng.random() < 0.5:
-            c["custom"] = [{"at": rng.randrange(0, 13), "name": rng.choice(["", "n", "name", "name", "name_", ".debug_str", "target_features", "target_features", "producers", "sourceMappingURL"]),
+            c["custom"] = [{"at": rng.randrange(0, 13), "name": rng.choice(["", "n", "name", "name", "name_", ".debug_str", ".debug_info", ".debug_line", "target_features", "target_features", "producers", "sourceMappingURL"]),
                             "payload": [rng.randrange(256) for _ in range(rng.choice([0, 1, 5, 200]))]} for _ in range(rng.randint(1, 3))]
         if rng.random() < 0.4:
             c["dataForm"] = {str(k): "flag2" for k in range(4) if rng.random() < 0.5}
@@ -183,7 +215,8 @@ def main():
                         v.deviation("leb:s%d" % n, {"bytes": x["bytes"], "spec": x["sv"], "code_value": vs, "code_count": cs})
         # 2. equivalent encodings of whole modules
         w2c2 = common.build_w2c2(os.path.join(wd, "bin"))
-        mods = [("directed", directed_module()), ("dimports", machine.norm_module(directed_imports()), IMPSCRIPT)]
+        tm_, ts_ = tails_module()
+        mods = [("directed", directed_module()), ("dimports", machine.norm_module(directed_imports()), IMPSCRIPT), ("tails", machine.norm_module(tm_), ts_)]
         for it in wasmgen.programs("mixed", 16 if tier == "quick" else 200, SEED, args_per_prog=3)[:6 if tier == "quick" else 80]:
             mods.append((it["id"], it["module"], it["script"]))
         for it in wasmgen.programs("calls", 12 if tier == "quick" else 150, SEED, args_per_prog=3)[:4 if tier == "quick" else 60]:
@@ -330,8 +363,16 @@ def main():
                 open(os.path.join(d, tag, "m.wasm"), "wb").write(bts)
                 rc, so, se = run([w2c2, "-t", "1", "m.wasm", "m.c"], cwd=os.path.join(d, tag), timeout=120)
                 out.append((rc, se, open(os.path.join(d, tag, "m.c")).read() if rc == 0 else "", open(os.path.join(d, tag, "m.h")).read() if rc == 0 else ""))
+            # debug output asked for (-g): custom sections other than "name" are still none of the translator's business, whatever they are
+            # called (.debug_*, producers, ...) and whether or not it was built with a DWARF library
+            cnames = [x["name"] for x in c.get("custom", [])] if isinstance(c, dict) else []
+            grc, gse = 0, ""
+            if cnames and "name" not in cnames and not any(isinstance(n_, str) and n_.startswith("name") for n_ in cnames):
+                grc, _, gse = run([w2c2, "-t", "1", "-g", "m.wasm", "g.c"], cwd=os.path.join(d, "alt"), timeout=120)
             shutil.rmtree(d, ignore_errors=True)
             devs = []
+            if grc != 0 and out[1][0] == 0:
+                return [("encoding-rejected-with-g", gse[-300:])]
             if out[0][0] != 0:
                 # the module is valid (WasmValid gates the replayed ones; the sparse ones are valid by inspection): a rejected
                 # canonical encoding is a rejected valid encoding
